@@ -8,10 +8,15 @@ Import ListNotations.
 Open Scope Z_scope.
 
 (* Every schedule of callers, sender, receiver, closer and peer (answers in any order, delayed,
-   duplicated, invented indices, cancellations, Close at any moment): as long as no index is drawn
-   while an earlier call that drew the same index is still alive (it has not returned, or the peer
-   still holds its request, or a reply to it is still on the way), every response a caller holds
-   or has returned was produced for that caller's own request. *)
+   duplicated, invented indices, cancellations, Close at any moment): as long as a call registers
+   under an index (or, in reverse, is handed to the provider before registering) only when every OTHER
+   call that drew the same index is harmless -- it has only drawn the index, or it has returned and
+   the peer neither holds its request nor has a reply to it on the way --, every response a caller
+   holds or has returned was produced for that caller's own request.
+   For rpc/udp since 7acbe6f (cfg_udp: store refuses an index held by a pending call) the guard never
+   concerns a call that is pending in the client's table (C09_udp_guard_not_about_pending): what is left
+   of it is about late replies of the peer to calls that have already returned, which no 15-bit
+   client can tell apart. *)
 Theorem C09_own_response : forall c tr st,
   run c init tr = Some st -> no_reuse c init tr = true ->
   forall k cr k', c_find k st = Some cr ->
@@ -19,12 +24,39 @@ Theorem C09_own_response : forall c tr st,
 Proof. exact own_response. Qed.
 Print Assumptions C09_own_response.
 
-(* no_reuse holds whenever fewer than mask+1 = 2^n calls (the new one included) have been issued
-   on the connection since every call that is still alive *)
+(* no_reuse holds whenever every other call that is not harmless made its draw fewer than mask+1 = 2^n
+   draws away *)
 Theorem C09_no_reuse_bound : forall c n tr,
   mask c = 2 ^ n - 1 -> 0 <= n -> window c init tr = true -> no_reuse c init tr = true.
 Proof. exact no_reuse_bound. Qed.
 Print Assumptions C09_no_reuse_bound.
+
+(* the repaired UDP allocation, every state, no guard: a store never replaces or removes an entry *)
+Theorem C09_udp_never_reissues_pending : forall c st k st' i h,
+  skip_pending c = true -> step c st (LStore k) = Some st' ->
+  t_find i (pending st) = Some h -> t_find i (pending st') = Some h.
+Proof. exact store_keeps_entries. Qed.
+Print Assumptions C09_udp_never_reissues_pending.
+
+(* it either registers on a free index or changes nothing but the counter (the caller draws again) *)
+Theorem C09_udp_store_free_or_redraw : forall c st k cr st',
+  skip_pending c = true -> c_find k st = Some cr -> step c st (LStore k) = Some st' ->
+  (t_find (ckey cr) (pending st) = None /\ t_find (ckey cr) (pending st') = Some k) \/
+  (exists h, t_find (ckey cr) (pending st) = Some h /\ pending st' = pending st /\ counter st' = counter st + 1).
+Proof. exact store_registers_on_free_index. Qed.
+Print Assumptions C09_udp_store_free_or_redraw.
+
+Theorem C09_udp_guard_not_about_pending : forall c st cr k2,
+  skip_pending c = true -> registers c st cr = true -> t_find (ckey cr) (pending st) <> Some k2.
+Proof. exact registering_store_meets_no_pending_holder. Qed.
+Print Assumptions C09_udp_guard_not_about_pending.
+
+(* the schedule that broke the old allocation (one call pending, 32768 further calls, then the reply to the
+   first) run against the repaired one: the late call's store is refused, it registers under the next
+   index, both callers return their own replies *)
+Theorem C09_udp_wrap_schedule_repaired : new_alloc_check (Z.to_nat mask15) = true.
+Proof. exact wrap_schedule_repaired. Qed.
+Print Assumptions C09_udp_wrap_schedule_repaired.
 
 (* A reply whose index is not pending changes neither the table nor any caller ... *)
 Theorem C09_stray_dup_dropped : forall c st n i p rest,
@@ -52,23 +84,21 @@ Theorem C09_reverse : forall tr st,
 Proof. exact (own_response cfg_reverse). Qed.
 Print Assumptions C09_reverse.
 
-(* Without the guard the statement is false on UDP (15-bit index): one call pending, 32768 further
-   calls on the connection; the last one draws the pending call's index, overwrites its entry, and
-   is handed the reply to the first request; the first caller is left waiting with no entry. *)
-Theorem C09_full_refuted_udp :
-  exists st, run cfg_udp init (wrap_witness (Z.to_nat mask15)) = Some st /\
+(* THE OLD ALLOCATION (rpc/udp before 7acbe6f, cfg_udp_old: store overwrites).  Without the guard the
+   statement was false: one call pending, 32768 further calls on the connection; the last one draws the
+   pending call's index, overwrites its entry, and is handed the reply to the first request; the first
+   caller is left waiting with no entry.  Kept as the record of the repaired defect. *)
+Theorem C09_full_refuted_udp_old :
+  exists st, run cfg_udp_old init (wrap_witness (Z.to_nat mask15)) = Some st /\
     (exists k cr k', c_find k st = Some cr /\ cstat cr = SDone (OResp (Some k')) /\ k' <> k) /\
     orphan_b st 1 = true.
-Proof. exact full_refuted_udp. Qed.
-Print Assumptions C09_full_refuted_udp.
+Proof. exact full_refuted_udp_old. Qed.
+Print Assumptions C09_full_refuted_udp_old.
 
-(* the other face of the same defect: the late call is answered first; the reply to the first
-   request then finds no entry and is dropped although its caller is still waiting and the peer
-   has answered *)
-Theorem C09_lost_response_refuted_udp :
-  lost_check cfg_udp (wrap_witness_lost (Z.to_nat mask15)) 1 = true.
-Proof. exact lost_response_udp. Qed.
-Print Assumptions C09_lost_response_refuted_udp.
+Theorem C09_lost_response_refuted_udp_old :
+  lost_check cfg_udp_old (wrap_witness_lost (Z.to_nat mask15)) 1 = true.
+Proof. exact lost_response_udp_old. Qed.
+Print Assumptions C09_lost_response_refuted_udp_old.
 
 (* ---- non-vacuity ---- *)
 (* the guard and the window hold on ordinary schedules: three callers answered in reverse order, a
@@ -92,7 +122,7 @@ Example bound_is_tight :
   window cfg_tiny init (wrap_witness 3) = false /\ no_reuse cfg_tiny init (wrap_witness 3) = false.
 Proof. split; [exact tiny_window_ok|exact tiny_window_fails]. Qed.
 
-Example masks_are_powers : mask cfg_socket = 2 ^ 31 - 1 /\ mask cfg_udp = 2 ^ 15 - 1 /\ mask cfg_reverse = 2 ^ 31 - 1.
+Example masks_are_powers : mask cfg_socket = 2 ^ 31 - 1 /\ mask cfg_udp = 2 ^ 15 - 1 /\ mask cfg_udp_old = 2 ^ 15 - 1 /\ mask cfg_reverse = 2 ^ 31 - 1.
 Proof. repeat split; reflexivity. Qed.
 
 (* reverse: two providers, indices drawn from the shared counter, results keyed by (id, index); a
@@ -106,3 +136,15 @@ Example reverse_two_providers :
   | None => False
   end.
 Proof. vm_compute. split; reflexivity. Qed.
+
+(* on the repaired allocation the wrap schedule satisfies the guard (shown on a 2-bit mask, where the guard can
+   be evaluated): the pending call no longer matters, and the calls that drew the late call's final index are dead *)
+Example repaired_allocation_meets_guard :
+  let c := {| mask := 3; early_enq := false; skip_pending := true |} in
+  no_reuse c init (wrap_witness_new 3) = true /\
+  match run c init (wrap_witness_new 3) with
+  | Some st => own_b st = true /\ map (fun kc => (fst kc, snd (ckey (snd kc)), cstat (snd kc))) (firstn 1 (callers st)) =
+               [(5, 2, SDone (OResp (Some 5)))]
+  | None => False
+  end.
+Proof. vm_compute. repeat split; reflexivity. Qed.
